@@ -160,7 +160,8 @@ def generated_documents(U):
     used_ex = any(a.ns == "http://example.com/ns" for e in _walk(root) for a in e.attrs)
     if used_ex and len(nss) == 1:
         nss.append(("ex", "http://example.com/ns"))
-    data = W.write(root, nss, utf8)
+    attr_size = rng.choice([20, 20, 24, 28])      # ResXMLTree_attrExt.attributeSize: attributes may carry trailing bytes
+    data = W.write(root, nss, utf8, attr_size)
     o = U.call(lambda: m.AXMLPrinter(data))
     U.ensures("parses", o.ok, exc=repr(o.exc)[:200], utf8=utf8)
     if not o.ok:
@@ -178,3 +179,144 @@ def _walk(e):
     yield e
     for c in e.children:
         yield from _walk(c)
+
+
+# ---- one arbitrary step of the pull parser (AXMLParser._do_next) on a symbolic chunk: ResXMLTree_node / ResXMLTree_attrExt /
+# ResXMLTree_attribute layout from ResourceTypes.h, attribute i at attributeStart-relative offset i * attributeSize
+
+
+class _SB:
+    def __getitem__(self, i):
+        return ("str", i)
+
+
+def _parser(U, m, data, pos, filesize):
+    p = object.__new__(m.AXMLParser)
+    p._valid = True
+    p.axml_tampered = False
+    p.buff = U.stream(data, pos)
+    p.buff_size = len(data)
+    p.filesize = filesize
+    p.sb = _SB()
+    p.m_resourceIDs = []
+    p.namespaces = []
+    p.m_event = -1
+    p._reset()
+    return p
+
+
+def _u32(bl, off):
+    return bl[off] | (bl[off + 1] << 8) | (bl[off + 2] << 16) | (bl[off + 3] << 24)
+
+
+def _u16(bl, off):
+    return bl[off] | (bl[off + 1] << 8)
+
+
+@unit("C26", covers=[(AXML, "AXMLParser._do_next"), (AXML, "ARSCHeader.__init__"), (AXML, "AXMLParser._reset")],
+      params=[{"count": c, "pad": 8} for c in (0, 1, 2, 3)], samples=120,
+      note="START_ELEMENT chunk with `count` attributes of a symbolic attributeSize in 20..20+pad (every byte of the chunk symbolic); "
+           "the stream is preceded by 8 arbitrary bytes so that the chunk does not sit at offset 0")
+def start_element_chunk(U, count, pad):
+    m = U.mod(AXML)
+    at_size = U.int("at_size", 20, 20 + pad)
+    lead = 8
+    body_max = 36 + count * (20 + pad)
+    raw = U.bytes("chunk", body_max + 8)
+    size = 36 + count * at_size
+    hdr = [0x02, 0x01, 0x10, 0x00] + [size & 0xFF, (size >> 8) & 0xFF, 0, 0]
+    bl = hdr + _items(raw)[8:]
+    # attributeStart = 0x14, attributeSize = at_size, attributeCount low half = count
+    bl[24:28] = [0x14, 0x00, at_size & 0xFF, (at_size >> 8) & 0xFF]
+    idattr = bl[30] | (bl[31] << 8)
+    bl[28:30] = [count, 0]
+    data = [0] * lead + bl
+    buf = SymBytes(data) if U.mode == "sym" else bytes(data)
+    p = _parser(U, m, buf, lead, lead + len(bl) + 1000)
+    o = U.call(p._do_next)
+    U.ensures("does not raise", o.ok, exc=repr(o.exc))
+    if not o.ok:
+        return
+    U.ensures("event is START_TAG and the document stays valid", And(p.m_event == m.START_TAG, p._valid))
+    U.ensures("line number, namespace and name indices are the node's fields",
+              And(p.m_lineNumber == _u32(bl, 8), p.m_namespaceUri == _u32(bl, 16), p.m_name == _u32(bl, 20)))
+    U.ensures("attribute count, id/class/style indices as in ResXMLTree_attrExt",
+              And(p.m_attribute_count == count, p.m_idAttribute == idattr - 1, p.m_classAttribute == _u16(bl, 32) - 1,
+                  p.m_styleAttribute == _u16(bl, 34) - 1))
+    U.ensures("five words per attribute", len(p.m_attributes) == 5 * count, got=len(p.m_attributes))
+    if len(p.m_attributes) == 5 * count:
+        for i in range(count):
+            base = 36 + i * at_size
+            if U.mode == "sym" and not isinstance(base, int):
+                base = base.concretize()
+            want = [_u32(bl, base), _u32(bl, base + 4), _u32(bl, base + 8), bl[base + 15], _u32(bl, base + 16)]
+            U.ensures("attribute %d is read at attributeStart + %d * attributeSize: ns, name, raw value, data type, data" % (i, i),
+                      Eq(p.m_attributes[5 * i:5 * i + 5], want), at_size=at_size)
+    U.ensures("the parser is positioned at the end of the chunk", p.buff.tell() == lead + size, pos=p.buff.tell())
+
+
+@unit("C26", covers=[(AXML, "AXMLParser._do_next"), (AXML, "ARSCHeader.__init__")],
+      params=[{"kind": k} for k in ("end", "cdata", "startns", "endns", "resmap", "foreign", "badhdr", "eof")], samples=80,
+      note="one END_ELEMENT / CDATA / START_NAMESPACE / END_NAMESPACE / RESOURCE_MAP / unknown-type / wrong-header-size chunk "
+           "with symbolic fields followed by an END_ELEMENT chunk; 'eof': the position equals the declared file size")
+def other_chunks(U, kind):
+    m = U.mod(AXML)
+    lead = 8
+    f = _items(U.bytes("f", 24))          # the 16 bytes after the 8-byte chunk header + 8 bytes of extension
+    nxt = [0x03, 0x01, 0x10, 0x00, 24, 0, 0, 0] + _items(U.bytes("n", 16))     # END_ELEMENT that follows a skipped chunk
+    if kind == "eof":
+        p = _parser(U, m, bytes(lead), lead, lead)
+        o = U.call(p._do_next)
+        U.ensures("at the declared file size the document ends", And(o.ok, p.m_event == m.END_DOCUMENT))
+        return
+    typ = {"end": 0x0103, "cdata": 0x0104, "startns": 0x0100, "endns": 0x0101, "resmap": 0x0180}.get(kind)
+    if kind == "foreign":
+        typ = U.choice("typ", [0x0001, 0x0002, 0x0200, 0x0105, 0x017f, 0x0181])
+    if kind == "badhdr":
+        typ = U.choice("typ", [0x0102, 0x0103, 0x0104])
+    hs = 0x10
+    if kind == "resmap":
+        hs = 8
+    if kind == "badhdr":
+        hs = U.choice("hs", [8, 12, 20])
+    ext = {"end": 8, "cdata": 12, "startns": 8, "endns": 8}.get(kind, 16)
+    size = (16 + ext) if kind not in ("resmap",) else 8 + 12
+    if kind == "badhdr":
+        size = 32
+    if kind == "foreign":
+        size = 32
+    bl = [typ & 0xFF, typ >> 8, hs, 0, size, 0, 0, 0] + f
+    bl = bl[:size]
+    data = [0] * lead + bl + nxt
+    buf = SymBytes(data) if U.mode == "sym" else bytes(data)
+    p = _parser(U, m, buf, lead, len(data) + 100)
+    if kind == "endns":
+        U.assume(Not(And(_u32(bl, 16) == 0x11111111, _u32(bl, 20) == 0x22222222)))     # the other open mapping is a different one
+        pre = U.bool("mapping_known")
+        if pre:
+            p.namespaces.append((_u32(bl, 16), _u32(bl, 20)))
+        p.namespaces.append((0x11111111, 0x22222222))
+    o = U.call(p._do_next)
+    U.ensures("does not raise", o.ok, exc=repr(o.exc))
+    if not o.ok:
+        return
+    end_next = And(p.m_event == m.END_TAG, p.m_namespaceUri == _u32(nxt, 16), p.m_name == _u32(nxt, 20),
+                   p.buff.tell() == len(data))
+    if kind == "end":
+        U.ensures("END_TAG with the node's namespace and name; positioned at the end of the chunk",
+                  And(p.m_event == m.END_TAG, p.m_namespaceUri == _u32(bl, 16), p.m_name == _u32(bl, 20), p.m_lineNumber == _u32(bl, 8),
+                      p.buff.tell() == lead + size))
+    elif kind == "cdata":
+        U.ensures("TEXT with the string index of the chunk; positioned at the end of the chunk",
+                  And(p.m_event == m.TEXT, p.m_name == _u32(bl, 16), p.buff.tell() == lead + size))
+    elif kind == "startns":
+        U.ensures("the (prefix, uri) mapping is pushed and parsing continues with the next chunk",
+                  And(Eq(list(p.namespaces), [(_u32(bl, 16), _u32(bl, 20))]), end_next))
+    elif kind == "endns":
+        U.ensures("exactly one matching mapping is removed (none if it was never opened); parsing continues",
+                  And(Eq(list(p.namespaces), [(0x11111111, 0x22222222)]), end_next))
+    elif kind == "resmap":
+        U.ensures("the resource map holds the chunk's words in order; parsing continues",
+                  And(Eq(list(p.m_resourceIDs), [_u32(bl, 8), _u32(bl, 12), _u32(bl, 16)]), end_next))
+    else:
+        U.ensures("a chunk of another type / with a wrong node header size is skipped as a whole", And(end_next, p._valid))
